@@ -10,53 +10,6 @@ import (
 	verif "reduction.dev/reduction/zz_verif"
 )
 
-// Harness_C02_CheckpointFSM: the barrier bookkeeping of one checkpoint for 1-3 upstreams and
-// every sequence of K registerBarrier (right or wrong id) / alignSender calls: a sender is
-// parked iff its own barrier has been registered and another sender's has not.
-func Harness_C02_CheckpointFSM() {
-	n := verif.IntRange("senders", 1, 3)
-	ids := []string{"a", "b", "c"}[:n]
-	c := newCheckpoint(7, ids)
-	got := make([]bool, n)
-	all := func() bool {
-		for _, g := range got {
-			if !g {
-				return false
-			}
-		}
-		return true
-	}
-	k := verif.Param("K", 4)
-	for step := 0; step < k; step++ {
-		s := verif.Choose("sender", n)
-		if verif.Choose("op", 2) == 0 {
-			if all() {
-				continue // the operator discards the checkpoint object once complete
-			}
-			id := uint64(7 + verif.Choose("wrong-id", 2))
-			err := c.registerBarrier(ids[s], &workerpb.CheckpointBarrier{CheckpointId: id})
-			if id != 7 {
-				verif.Assert(err != nil, "barrier-of-another-checkpoint-rejected")
-			} else {
-				verif.Assert(err == nil, "barrier-accepted")
-				got[s] = true
-			}
-			verif.Assert(c.hasAllBarriers() == all(), "complete-iff-every-sender-delivered-its-barrier")
-		} else {
-			wait := c.alignSender(ids[s])
-			released := false
-			go func() {
-				wait()
-				released = true
-			}()
-			verif.Quiesce()
-			parked := got[s] && !all()
-			verif.Assert(released == !parked, "sender-parked-iff-its-barrier-arrived-and-another-is-missing")
-		}
-	}
-	verif.Reached()
-}
-
 type verifMsg struct {
 	barrier uint64
 	wm      int64 // > 0: a watermark with this timestamp (seconds)
@@ -66,7 +19,7 @@ type verifMsg struct {
 }
 
 // Harness_C02_Alignment: a real operator with two upstream source runners. Each delivers the
-// script e, B1, e' [, B2, e''] (with WM=1 each item is an event or a watermark, and SEG items
+// script e, B1, e' [, B2, e”] (with WM=1 each item is an event or a watermark, and SEG items
 // precede each barrier) through HandleEvent; the harness chooses, message by message,
 // whose next call arrives (every interleaving of the calls; a call that is parked for
 // alignment stays parked while the other runner continues). Events a runner delivers after its
